@@ -279,7 +279,7 @@ type Surface struct {
 	By       []bool
 	CondSep  []int // 0 " and " 1 ", " 2 " " 3 " AND "
 	OpUpper  []bool
-	WS       []int // whitespace between tokens: 0 " " 1 "  " 2 "\t" 3 "\n"
+	WS       []int // whitespace between tokens: 0 " " 1 "  " 2 "\t" 3 "\n" 4 "\r\n" 5 "\r" 6 "\v" 7 "\f"
 	Trailing int   // 0 nothing 1 " " 2 ";"-less newline
 	counters [6]int
 }
@@ -299,7 +299,7 @@ func GenSurface() *rapid.Generator[Surface] {
 		s.By = rapid.SliceOfN(rapid.Bool(), 4, 4).Draw(t, "by")
 		s.CondSep = rapid.SliceOfN(rapid.IntRange(0, 3), 8, 8).Draw(t, "condsep")
 		s.OpUpper = rapid.SliceOfN(rapid.Bool(), 8, 8).Draw(t, "opupper")
-		s.WS = rapid.SliceOfN(rapid.SampledFrom([]int{0, 0, 0, 0, 1, 2, 3}), 64, 64).Draw(t, "ws")
+		s.WS = rapid.SliceOfN(rapid.SampledFrom([]int{0, 0, 0, 0, 0, 0, 1, 2, 3, 4, 4, 5, 6, 7}), 64, 64).Draw(t, "ws")
 		s.Trailing = rapid.IntRange(0, 2).Draw(t, "trailing")
 		return s
 	})
@@ -336,7 +336,8 @@ func (s *Surface) sep() string {
 }
 
 func (s *Surface) ws() string {
-	return []string{" ", "  ", "\t", "\n"}[s.WS[s.next(2, len(s.WS))]]
+	// every character strings.Fields treats as ASCII white space (a query pasted from a file with DOS line ends is still the same query)
+	return []string{" ", "  ", "\t", "\n", "\r\n", "\r", "\v", "\f"}[s.WS[s.next(2, len(s.WS))]]
 }
 
 // UsesUpper reports whether any keyword is rendered in non-lower case (approximation: any entry non-zero).
